@@ -42,8 +42,15 @@ func genTask(r *kit.Rand, id string, names []string, focus bool) *taskDef {
 	// from() options that do not take part in the routing (checked on the recorded points)
 	for i := range d.froms {
 		if r.Chance(1, 4) {
-			d.froms[i].opts = kit.Pick(r, []string{"g", "a", "m", "t", "r", "gt", "tr", "gm", "ar"})
+			d.froms[i].opts = kit.Pick(r, []string{"g", "a", "m", "t", "r", "gt", "tr", "gm", "ar", "G", "D", "T", "R", "TR", "Tr", "GmT", "amtR", "n", "nr", "Dm"})
 		}
+	}
+	// shallow-copy discipline: a re-stamping from() next to a plain sibling with the same selection
+	if len(d.froms) > 0 && len(d.froms) < 3 && r.Chance(1, 6) {
+		sib := d.froms[0]
+		sib.opts = ""
+		d.froms[0].opts = kit.Pick(r, []string{"tg", "Ta", "rm", "TRG"})
+		d.froms = append(d.froms, sib)
 	}
 	// a from() chained below another from()
 	if len(d.froms) > 0 && len(d.froms) < 4 && r.Chance(1, 4) {
@@ -58,7 +65,7 @@ func genTask(r *kit.Rand, id string, names []string, focus bool) *taskDef {
 			f.wh = r.Intn(len(preds))
 		}
 		if r.Chance(1, 3) {
-			f.opts = kit.Pick(r, []string{"g", "t", "r"})
+			f.opts = kit.Pick(r, []string{"g", "t", "r", "T", "R", "a", "Gm", "tr"})
 		}
 		d.froms = append(d.froms, f)
 	}
@@ -138,6 +145,17 @@ func genTask0(r *kit.Rand, id string, names []string, focus bool) *taskDef {
 	return d
 }
 
+// genPoint: tags host (always, unless the name is empty: see parsePoint) and dc (half of the points), times 300 ms apart so
+// that truncate / round are visible and halfway values (…500 ms) occur.
+func genPoint(r *kit.Rand, id int64, name string) *point {
+	p := &point{id: id, name: name, v: int64(r.Intn(10)), host: kit.Pick(r, []string{"a", "b"}), dc: kit.Pick(r, []string{"", "", "x", "y"}),
+		t: origTime(id).UnixNano()}
+	if name == "" {
+		p.host, p.dc = "", ""
+	}
+	return p
+}
+
 func startLine(d *taskDef) string {
 	return fmt.Sprintf("start %s %s %s", kit.Esc(d.id), dbrpsTok(d.dbrps), fromsTok(d.froms))
 }
@@ -204,10 +222,7 @@ func genCase(r *kit.Rand, idx int, tier string) []string {
 		var toks []string
 		for i := 0; i < n; i++ {
 			pid++
-			p := &point{id: pid, name: kit.Pick(r, wnames), v: int64(r.Intn(10)), host: kit.Pick(r, []string{"a", "b"})}
-			if p.name == "" {
-				p.host = "" // see parsePoint
-			}
+			p := genPoint(r, pid, kit.Pick(r, wnames))
 			p.pass = passOf(p)
 			toks = append(toks, pointTok(p))
 		}
@@ -226,10 +241,7 @@ func genCase(r *kit.Rand, idx int, tier string) []string {
 		var toks []string
 		for j := r.Range(1, 4); j > 0; j-- {
 			pid++
-			p := &point{id: pid, name: kit.Pick(r, wnames), v: int64(r.Intn(10)), host: kit.Pick(r, []string{"a", "b"})}
-			if p.name == "" {
-				p.host = ""
-			}
+			p := genPoint(r, pid, kit.Pick(r, wnames))
 			p.pass = passOf(p)
 			toks = append(toks, pointTok(p))
 		}
@@ -296,20 +308,31 @@ func genCase(r *kit.Rand, idx int, tier string) []string {
 			if r.Chance(1, 3) {
 				badAt = r.Intn(n + 1)
 			}
+			prec := kit.Pick(r, []string{"-", "n", "u", "ms", "s", "m", "h", "x"})
 			var toks []string
 			for j := 0; j <= n; j++ {
 				if j == badAt {
 					toks = append(toks, fmt.Sprintf("!%d", r.Intn(len(badLines))))
 				}
+				if r.Chance(1, 8) {
+					toks = append(toks, fmt.Sprintf("#%d", r.Intn(2))) // a comment / a blank line
+				}
 				if j == n {
 					break
 				}
 				pid++
-				p := &point{id: pid, name: kit.Pick(r, names), v: int64(r.Intn(10)), host: kit.Pick(r, []string{"a", "b"})}
+				p := genPoint(r, pid, kit.Pick(r, names))
 				p.pass = passOf(p)
-				toks = append(toks, pointTok(p))
+				ts := p.t / precUnit[prec]
+				if r.Chance(1, 12) {
+					// a time stamp that leaves the int64 ns range under precision h (the whole request is refused) and is a
+					// perfectly good one under every other precision
+					ts = 2562048
+				}
+				toks = append(toks, pointTok(p)+"@"+fmt.Sprint(ts))
 			}
-			ops = append(ops, fmt.Sprintf("hwrite %s %s %s %s", db, rp, kit.Pick(r, []string{"-", "n", "u", "ms", "s"}), strings.Join(toks, ",")))
+			flags := kit.Pick(r, []string{"-", "-", "-", "gz", "gz", "cons", "gz,cons", "gzhdr", "gztrunc"})
+			ops = append(ops, fmt.Sprintf("hwrite %s %s %s %s %s", db, rp, prec, strings.Join(toks, ","), flags))
 		case k < 13:
 			// several writers at once
 			db, rp := kit.Pick(r, genDBs), kit.Pick(r, []string{"autogen", "r2", ""})
@@ -321,10 +344,7 @@ func genCase(r *kit.Rand, idx int, tier string) []string {
 				var toks []string
 				for j := r.Range(3, 40); j > 0; j-- {
 					pid++
-					p := &point{id: pid, name: kit.Pick(r, wnames), v: int64(r.Intn(10)), host: kit.Pick(r, []string{"a", "b"})}
-					if p.name == "" {
-						p.host = ""
-					}
+					p := genPoint(r, pid, kit.Pick(r, wnames))
 					p.pass = passOf(p)
 					toks = append(toks, pointTok(p))
 				}
